@@ -5,9 +5,11 @@
    The ring queue / writer itself is C12's; here the writer is stuck in a transport write, so
    every enqueued byte stays queued.
 
-   [sub_cmd] is the code AFTER /verif/fixes/C37-shared-poll-channel-length.patch (the length
-   check runs in handleSubscribe before routing); [sub_cmd_prefix] the code before it, where the
-   shared-poll route skipped it.  No proofs here.
+   [sub_cmd] / [complete] are the code AFTER /verif/fixes/C37-shared-poll-channel-length.patch
+   (the length check runs in handleSubscribe before routing) and
+   /verif/fixes/C37-map-subscribe-limit.patch (a map subscribe re-checks the channel limit where
+   its reservation is installed, i.e. after the application callback); [sub_cmd_prefix] /
+   [complete_prefix] are the code before them.  No proofs here.
 
    Codes: errors 105 already subscribed, 106 limit exceeded, 107 bad request; disconnects
    3505 channel limit, 3008 slow. *)
@@ -18,16 +20,18 @@ Open Scope N_scope.
 Record cfg := mkCfg { g_limit : N; g_maxlen : N; g_maxq : N }.     (* 0 = unlimited *)
 
 Inductive script := SOk | SErr (code : N) | SAsync.
+Inductive route := RStream | RSharedPoll | RMap.
 
 Record st := mkSt {
   closed : bool;
   chans : list N;             (* Client.channels entries with flagSubscribed *)
   resv : list (N * N);        (* reservations (token, channel): subscribe callbacks held by the application *)
+  mpend : list (N * N);       (* map subscribes whose callback is held: validateSubscribeRequest reserved nothing *)
   next : N;
   q : N                       (* bytes in the writer queue *)
 }.
 
-Definition init : st := mkSt false [] [] 0 0.
+Definition init : st := mkSt false [] [] [] 0 0.
 
 Inductive out := OReply (err : N) | OClose (code : N) | OHandler (name : N).
 
@@ -36,23 +40,44 @@ Definition held (s : st) : N := N.of_nat (length (chans s) + length (resv s)).
 Definition taken (s : st) (n : N) : bool := memN n (chans s) || memN n (map snd (resv s)).
 
 Definition close (s : st) (code : N) : st * list out :=
-  if closed s then (s, []) else (mkSt true (chans s) (resv s) (next s) (q s), [OClose code]).
+  if closed s then (s, []) else (mkSt true (chans s) (resv s) (mpend s) (next s) (q s), [OClose code]).
 
-(* client subscribe command; [sp] = the channel is a shared-poll channel (type 4 request);
-   [lencheck_sp] = does the shared-poll route check the name length *)
-Definition sub_gen (lencheck_sp : bool) (g : cfg) (s : st) (n len : N) (sp : bool) (sc : script)
+Definition at_limit (g : cfg) (s : st) : bool := (0 <? g_limit g) && (g_limit g <=? held s).
+
+(* a map subscribe goes live: the reservation is installed after the callback *)
+Definition map_install (recheck : bool) (g : cfg) (s : st) (n : N) (rest : list (N * N)) : st * list out :=
+  if recheck && at_limit g s then (mkSt false (chans s) (resv s) rest (next s) (q s), [OReply 106])
+  else if memN n (chans s) then (mkSt false (chans s) (resv s) rest (next s) (q s), [OReply 105])
+  else (mkSt false (chans s ++ [n]) (resv s) rest (next s) (q s), [OReply 0]).
+
+(* client subscribe command on one of the three routes;
+   [lencheck_sp] = does the shared-poll route check the name length,
+   [recheck] = does a map subscribe re-check the limit when it installs its reservation *)
+Definition sub_gen (lencheck_sp recheck : bool) (g : cfg) (s : st) (n len : N) (rt : route) (sc : script)
   : st * list out :=
   if closed s then (s, []) else
+  let sp := match rt with RSharedPoll => true | _ => false end in
   if (0 <? g_maxlen g) && (g_maxlen g <? len) && (negb sp || lencheck_sp) then (s, [OReply 107]) else
-  if taken s n then (s, [OReply 105]) else
-  if (0 <? g_limit g) && (g_limit g <=? held s) then (s, [OReply 106]) else
-  match sc with
-  | SOk => (mkSt false (chans s ++ [n]) (resv s) (next s) (q s), [OHandler n; OReply 0])
-  | SErr code => (s, [OHandler n; OReply code])
-  | SAsync => (mkSt false (chans s) (resv s ++ [(next s, n)]) (next s + 1) (q s), [OHandler n])
+  match rt with
+  | RMap =>
+      if memN n (chans s) then (s, [OReply 105]) else
+      if at_limit g s then (s, [OReply 106]) else
+      match sc with
+      | SOk => let '(s1, o1) := map_install recheck g s n (mpend s) in (s1, OHandler n :: o1)
+      | SErr code => (s, [OHandler n; OReply code])
+      | SAsync => (mkSt false (chans s) (resv s) (mpend s ++ [(next s, n)]) (next s + 1) (q s), [OHandler n])
+      end
+  | _ =>
+      if taken s n then (s, [OReply 105]) else
+      if at_limit g s then (s, [OReply 106]) else
+      match sc with
+      | SOk => (mkSt false (chans s ++ [n]) (resv s) (mpend s) (next s) (q s), [OHandler n; OReply 0])
+      | SErr code => (s, [OHandler n; OReply code])
+      | SAsync => (mkSt false (chans s) (resv s ++ [(next s, n)]) (mpend s) (next s + 1) (q s), [OHandler n])
+      end
   end.
-Definition sub_cmd := sub_gen true.
-Definition sub_cmd_prefix := sub_gen false.
+Definition sub_cmd := sub_gen true true.
+Definition sub_cmd_prefix := sub_gen false false.
 
 Fixpoint take (tok : N) (l : list (N * N)) : option (N * list (N * N)) :=
   match l with
@@ -62,46 +87,56 @@ Fixpoint take (tok : N) (l : list (N * N)) : option (N * list (N * N)) :=
       else match take tok r with Some (m, r') => Some (m, (t, n) :: r') | None => None end
   end.
 
-Definition complete (s : st) (tok : N) (ok : bool) : st * list out :=
+Definition complete_gen (recheck : bool) (g : cfg) (s : st) (tok : N) (ok : bool) : st * list out :=
   match take tok (resv s) with
-  | None => (s, [])
   | Some (n, rest) =>
-      if closed s then (mkSt true (chans s) rest (next s) (q s), [])
-      else if ok then (mkSt false (chans s ++ [n]) rest (next s) (q s), [OReply 0])
-      else (mkSt false (chans s) rest (next s) (q s), [OReply 103])
+      if closed s then (mkSt true (chans s) rest (mpend s) (next s) (q s), [])
+      else if ok then (mkSt false (chans s ++ [n]) rest (mpend s) (next s) (q s), [OReply 0])
+      else (mkSt false (chans s) rest (mpend s) (next s) (q s), [OReply 103])
+  | None =>
+      match take tok (mpend s) with
+      | None => (s, [])
+      | Some (n, rest) =>
+          if closed s then (mkSt true (chans s) (resv s) rest (next s) (q s), [])
+          else if ok then map_install recheck g s n rest
+          else (mkSt false (chans s) (resv s) rest (next s) (q s), [OReply 103])
+      end
   end.
+Definition complete := complete_gen true.
+Definition complete_prefix := complete_gen false.
 
 (* server-side Client.Subscribe *)
 Definition srv_sub (g : cfg) (s : st) (n : N) : st * list out :=
   if closed s then (s, []) else
-  if (0 <? g_limit g) && (g_limit g <=? held s) then close s 3505 else
+  if at_limit g s then close s 3505 else
   if taken s n then (s, []) else
-  (mkSt false (chans s ++ [n]) (resv s) (next s) (q s), []).
+  (mkSt false (chans s ++ [n]) (resv s) (mpend s) (next s) (q s), []).
 
 Definition unsub_cmd (s : st) (n : N) : option (st * list out) :=
   if closed s then Some (s, []) else
   if memN n (map snd (resv s)) then None        (* waits for the subscribe in flight *)
-  else Some (mkSt false (filter (fun x => negb (x =? n)) (chans s)) (resv s) (next s) (q s), [OReply 0]).
+  else Some (mkSt false (filter (fun x => negb (x =? n)) (chans s)) (resv s) (mpend s) (next s) (q s), [OReply 0]).
 
 (* a message of [size] encoded bytes is enqueued while the writer is stuck *)
 Definition enqueue (g : cfg) (s : st) (size : N) : st * list out :=
   if closed s then (s, []) else
-  let s1 := mkSt false (chans s) (resv s) (next s) (q s + size) in
+  let s1 := mkSt false (chans s) (resv s) (mpend s) (next s) (q s + size) in
   if (0 <? g_maxq g) && (g_maxq g <? q s1) then close s1 3008 else (s1, []).
 
 Inductive label :=
-| LSub (n len : N) (sp : bool) (sc : script)
+| LSub (n len : N) (rt : route) (sc : script)
 | LComplete (tok : N) (ok : bool)
 | LSrvSub (n : N)
 | LUnsub (n : N)
 | LEnqueue (size : N).
 
 Section Step.
-  Variable sub : cfg -> st -> N -> N -> bool -> script -> st * list out.
+  Variable sub : cfg -> st -> N -> N -> route -> script -> st * list out.
+  Variable compl : cfg -> st -> N -> bool -> st * list out.
   Definition step_gen (g : cfg) (s : st) (l : label) : option (st * list out) :=
     match l with
-    | LSub n len sp sc => Some (sub g s n len sp sc)
-    | LComplete tok ok => Some (complete s tok ok)
+    | LSub n len rt sc => Some (sub g s n len rt sc)
+    | LComplete tok ok => Some (compl g s tok ok)
     | LSrvSub n => Some (srv_sub g s n)
     | LUnsub n => unsub_cmd s n
     | LEnqueue size => Some (enqueue g s size)
@@ -120,6 +155,7 @@ Section Step.
         end
     end.
 End Step.
-Definition step := step_gen sub_cmd.
-Definition trace := trace_gen sub_cmd.
-Definition step_prefix := step_gen sub_cmd_prefix.
+Definition step := step_gen sub_cmd complete.
+Definition trace := trace_gen sub_cmd complete.
+Definition step_prefix := step_gen sub_cmd_prefix complete_prefix.
+Definition trace_prefix := trace_gen sub_cmd_prefix complete_prefix.
